@@ -110,6 +110,11 @@ func (d *uriDecoder) Scan(ctx context.Context) (DecodedAmmo, error) {
 			}
 			return nil, d.scanner.Err()
 		}
+		if err := d.scanner.Err(); err != nil {
+			// bufio.Scanner hands out what it has buffered as a last token when a read fails:
+			// that is a truncated line, not an ammo
+			return nil, err
+		}
 		data := d.scanner.Text()
 		a, err := d.readLine(data, d.Header)
 		if err != nil {
